@@ -77,9 +77,32 @@ def _fn_name(s):
     return name.split(" ")[-1] if " " in name else name
 
 
+def fatal_stack(err):
+    """the part of stderr that holds the stack of the event that ended the process: the block after ASan's ERROR
+    line, else after the first non-recoverable UBSan report, else the last stack printed (recoverable UBSan
+    reports print stacks too and must not be mistaken for the crash site)."""
+    i = err.find("ERROR: AddressSanitizer")
+    if i < 0:
+        for m in UBSAN_LINE.finditer(err):
+            if not UBSAN_RECOVERABLE.search(m.group(0)):
+                i = m.start()
+                break
+    if i < 0:
+        blocks = list(re.finditer(r"(?:^\s*#\d+ 0x[^\n]*\n)+", err, re.M))
+        return blocks[-1].group(0) if blocks else ""
+    rest = err[i:]
+    m = re.search(r"(?:^\s*#\d+ 0x[^\n]*\n?)+", rest, re.M)
+    return m.group(0) if m else ""
+
+
+# trivial accessors whose caller is the one at fault when they assert
+LEAF_HELPERS = {"CPPExpression::Result::as_integer", "CPPExpression::Result::as_real",
+                "CPPExpression::Result::as_boolean", "CPPExpression::Result::as_pointer"}
+
+
 def project_frames(err):
     out = []
-    for m in FRAME_RE.finditer(err):
+    for m in FRAME_RE.finditer(fatal_stack(err)):
         if PROJECT_PATH.search(m.group(3)):
             out.append(_fn_name(m.group(2)))
     return out
@@ -93,20 +116,26 @@ def _cycle(fr):
     return sorted(f for f, c in cnt.items() if c * 2 >= top and c > 1)
 
 
+def _classes(funcs):
+    return sorted({f.rsplit("::", 1)[0] if "::" in f else f for f in funcs})
+
+
 def frames_signature(err, how):
+    """crash-class signature: the innermost in-project function of the fatal stack (trivial accessors skipped).
+    Unbounded recursion: the functions of the cycle; when a single function walks a cyclic structure (several
+    walkers of the same class reach the same cycle: get_virtual_funcs, is_default_constructible, ...) its class."""
     fr = project_frames(err)
     if not fr:
         return "?"
     if how.endswith("stack-overflow"):
-        # recursion: the innermost frames depend on where the guard page was hit; use the set of
-        # functions that make up the cycle (most frequent in the trace), sorted.
         cyc = _cycle(fr)
+        if len(cyc) == 1:
+            return "recursion-in=" + "+".join(_classes(cyc))
         return "recursion=" + ",".join(cyc[:4]) if cyc else fr[0]
-    ded = []
     for f in fr:
-        if not ded or ded[-1] != f:
-            ded.append(f)
-    return ">".join(reversed(ded[:2])) if len(ded) >= 2 else ded[0]
+        if f not in LEAF_HELPERS:
+            return f
+    return fr[0]
 
 
 # functions that only drive the phases; the first frame below them names the phase the time is spent in
@@ -126,14 +155,13 @@ def hang_signature(err):
     fr = project_frames(err)      # innermost first
     if not fr:
         return "?"
-    nframes = len(re.findall(r"^\s*#\d+ 0x", err, re.M))
+    nframes = len(re.findall(r"^\s*#\d+ 0x", fatal_stack(err), re.M))
     if nframes >= 200 or "main" not in fr:
         # which of the mutually recursive functions is on top when the abort arrives varies from run to run
         # (is_equal / is_less / operator== ...); their classes do not
         cyc = _cycle(fr)
         if cyc:
-            cls = sorted({f.rsplit("::", 1)[0] if "::" in f else f for f in cyc})
-            return "recursion-in=" + "+".join(cls[:4])
+            return "recursion-in=" + "+".join(_classes(cyc)[:4])
     for f in reversed(fr):
         if f not in DRIVER_FRAMES:
             return f
@@ -429,10 +457,11 @@ def exec_input(b, inp, d, res=None):
     parse_err = bool(PARSE_ERROR_RE.search(r.err))
     if r.rc != 0 and not r.err.strip():
         return Outcome("silent-failure:" + inp["t"].split(":")[-1], "silent-failure", r)
+    if parse_err and r.rc == 0:
+        return Outcome("output-rule:exit0-after-parse-error:" + ("interrogate" if outs is not None else "parse_file"),
+                       "output-rule", r)
     if outs is not None:
         left = sorted(k for k, p in outs.items() if os.path.exists(p))
-        if parse_err and r.rc == 0:
-            return Outcome("output-rule:exit0-after-parse-error", "output-rule", r, {"outputs": left})
         if parse_err and left:
             return Outcome("output-rule:outputs-left-after-parse-error:" + ",".join(left), "output-rule", r)
         if r.rc == 0 and len(left) != 3:
@@ -550,6 +579,11 @@ def enum_inputs(tier):
     rng = random.Random("C15-nest")
     for k in mutgen.NEST_KINDS:
         for n in depths:
+            if k == "base_chain":
+                # the class-trait walkers are roughly cubic in the length of an inheritance chain (10 min at 1000,
+                # 3 s at 100); that is slow but terminating, and where the watchdog would catch it differs from
+                # run to run, so it is observed only up to a depth that finishes
+                n = min(n, 100)
             data = mutgen.gen_nesting(rng, k, n)
             tg = ("pf", "pfE", "ig", "inc:pf") if tier == "thorough" else (("pf", "ig") if n == 1000 else ("pfE", "inc:pf"))
             for t in tg:
